@@ -182,6 +182,28 @@ def solve(ob, timeout_ms, both, extra_axioms=()):
     elif r == z3.unknown:
         res["detail"] = s.reason_unknown()
         text = s.to_smt2()
+        # a universal goal: fresh constants + hand instantiation of the universal hypotheses at them (see ground_at_goal_constants)
+        try:
+            gi = ground_at_goal_constants(ob.goal, list(ob.hyps))
+        except z3.Z3Exception:
+            gi = None
+        if gi is not None:
+            sg = z3.Solver()
+            sg.set("timeout", int(timeout_ms))
+            sg.add(*ob.hyps)
+            sg.add(*extra_axioms)
+            for a in coll.member_axioms():
+                sg.add(a)
+            sg.add(*gi[1])
+            sg.add(z3.Not(gi[0]))
+            try:
+                rg = sg.check()
+            except z3.Z3Exception:
+                rg = z3.unknown
+            if rg == z3.unsat:
+                res.update(status="unsat", solver="z3-" + z3.get_version_string() + " (universal hypotheses instantiated at the goal's constants: runner.ground_at_goal_constants)",
+                           time=time.time() - t0, smt2=None)
+                return res
         # an existential goal: try the candidate witnesses that occur in the obligation itself (sound: see strengthen_exists)
         try:
             strong = strengthen_exists(ob.goal, list(ob.hyps))
@@ -324,6 +346,36 @@ def strengthen_exists(goal, hyps, max_cands=24):
     return out if changed[0] else None
 
 
+def ground_at_goal_constants(goal, hyps, limit=60):
+    """A universally quantified goal is proved for fresh constants; every universally quantified hypothesis whose variables all
+    have the sort of one of those constants is additionally instantiated at them by hand (the solver's own instantiation can
+    miss them when its preprocessing rewrites the ground goal and the quantified body differently).  Returns (goal', instances)
+    or None.  Sound: goal' for fresh constants gives the goal, the instances follow from the hypotheses."""
+    if not (z3.is_quantifier(goal) and goal.is_forall()):
+        return None
+    n = goal.num_vars()
+    _WIT[0] += 1
+    cs = [z3.Const(f"gk!{_WIT[0]}!{goal.var_name(i)}", goal.var_sort(i)) for i in range(n)]
+    g2 = z3.substitute_vars(goal.body(), *reversed(cs))
+    by_sort = {}
+    for c in cs:
+        by_sort.setdefault(c.sort().name(), []).append(c)
+    import itertools
+    inst = []
+    for h in hyps:
+        if not (z3.is_quantifier(h) and h.is_forall()):
+            continue
+        k = h.num_vars()
+        pools = [by_sort.get(h.var_sort(i).name()) for i in range(k)]
+        if any(p is None for p in pools):
+            continue
+        for combo in itertools.islice(itertools.product(*pools), 8):
+            inst.append(z3.substitute_vars(h.body(), *reversed(combo)))
+            if len(inst) >= limit:
+                return g2, inst
+    return (g2, inst) if inst else None
+
+
 def _has_quantifier(x):
     stack, seen = [x], set()
     while stack:
@@ -353,15 +405,49 @@ def candidate_model(ob, timeout_ms=8000):
     return None
 
 
+class JobTimeout(BaseException):
+    pass
+
+
+JOB_WALL_LIMIT = {"quick": 1500, "thorough": 7200}      # seconds per (unit, configuration); far above any job of the unchanged tree
+
+
 def run_job(arg):
     prop, job, tier, known, want_sample = arg
     t0 = time.time()
+    import signal
+
+    def _alarm(signum, frame):
+        raise JobTimeout()
+    old_handler = None
+    try:
+        old_handler = signal.signal(signal.SIGALRM, _alarm)
+        signal.setitimer(signal.ITIMER_REAL, JOB_WALL_LIMIT.get(tier, 1500))
+    except (ValueError, OSError):
+        old_handler = None          # not in a main thread: no guard
     try:
         return _run_job(prop, job, tier, known, want_sample, t0)
+    except JobTimeout:
+        # symbolic execution (or a replay) that does not come back: undecided, never a hang and never a verdict
+        st = _setup(prop)
+        unit = st["units"][job[0]].target if job[0] != "lemmas" else "lemmas over contracts"
+        label = ""
+        try:
+            spec = st["units"][job[0]]
+            label = spec.cfg_label(spec.configs()[job[1]])
+        except Exception:
+            pass
+        return {"job": job, "obligations": [], "unit": unit, "cfg": label, "paths": 0,
+                "oos": [f"the job did not finish within {JOB_WALL_LIMIT.get(tier, 1500)} s of wall-clock time (non-terminating symbolic execution of the current source?)"],
+                "functions": [], "wall": time.time() - t0, "models_used": [], "vacuous": []}
     except Exception as e:
         return {"job": job, "error": f"{type(e).__name__}: {e}", "trace": traceback.format_exc()[-1500:],
                 "obligations": [], "unit": str(job), "cfg": "", "paths": 0, "oos": [], "functions": [],
                 "wall": time.time() - t0, "models_used": [], "vacuous": []}
+    finally:
+        if old_handler is not None:
+            signal.setitimer(signal.ITIMER_REAL, 0)
+            signal.signal(signal.SIGALRM, old_handler)
 
 
 def _run_job(prop, job, tier, known, want_sample, t0):
